@@ -41,6 +41,10 @@ func destForms() []destForm {
 		{"time-exceeded", anyV, func(e *simEnv, p *refmatch.Probe, from netip.Addr) []byte {
 			return gen.WrapError(from, e.local, gen.TimeExceeded, 0, gen.QuoteBytes(p, 1, "fix"), "min", nil, 0)
 		}},
+		// another ping with the same identifier whose 16-bit sequence number merely shares its low byte with the probe's
+		{"echo-reply-seq-high-byte", is("icmp"), func(e *simEnv, p *refmatch.Probe, from netip.Addr) []byte {
+			return gen.EchoReply(from, e.local, e.echoID, uint16(p.Seq)+0x100*uint16(1+p.TTL%3), []byte{byte(p.TTL)}, nil)
+		}},
 		{"port-unreachable", is("udp"), func(e *simEnv, p *refmatch.Probe, from netip.Addr) []byte {
 			code := uint8(3)
 			if e.spec.V.V6 {
@@ -428,6 +432,44 @@ func checkC05() fw.Check {
 				vn := vn
 				id := "C05/realtime-slow-send/" + vn
 				cases = append(cases, fw.Case{ID: id, Run: func(c *fw.Ctx) { runC05RealtimeSlowSend(c, id, refmatch.VariantByName(vn)) }})
+			}
+			// SACK across the 32-bit wrap: the connection's initial sequence number is such that the first probe that reaches
+			// the target sits just below 2^32 and the later ones just above 0; that first probe's acknowledgement is lost,
+			// the next probe is lost on the way, so the first acknowledgement the tool reads carries two blocks, one on each
+			// side of the wrap. The lowest RELATIVE left edge names the probe: hop = first probe that reached the target,
+			// RTT = read instant - that probe's send instant.
+			for _, v := range refmatch.Variants {
+				if v.Proto != "sack" {
+					continue
+				}
+				for _, dist := range []int{2, 3, 5} {
+					v, dist := v, dist
+					id := fmt.Sprintf("C05/%s/sack-blocks-across-wrap/dist%d", v.Name, dist)
+					cases = append(cases, fw.Case{ID: id, Bubble: true, Run: func(c *fw.Ctx) {
+						b := base{name: "across-wrap", echoID: 0x1233, ipid: 0x5000, isn: uint32(0xffffffff - uint32(dist)), tcpSeq: u32(0x12345678)}
+						sc := scenario{tag: id, v: v, win: window{1, 8}, b: b, model: func(e *simEnv) *pathModel {
+							m := &pathModel{hops: map[int]*hopSpec{}, dist: dist, destDelay: 40 * time.Millisecond, lost: map[int]bool{dist + 1: true}}
+							for t := 1; t < dist; t++ {
+								m.hops[t] = &hopSpec{addr: routerAddr(v.V6, 1, t), delay: time.Duration(10+3*t) * time.Millisecond}
+							}
+							m.destBuild = func(e *simEnv, p *refmatch.Probe) []byte {
+								if p.TTL == dist {
+									return nil // the acknowledgement of the first probe that arrived is lost
+								}
+								return e.destReply(p)
+							}
+							return m
+						}}
+						out := runScenario(c, sc)
+						if out == nil {
+							return
+						}
+						defer out.e.close()
+						if out.res.Err == nil && out.res.Run != nil && len(out.res.Run.Hops) == dist {
+							c.Nontrivial(fmt.Sprintf("%s/sack-blocks-across-wrap/%d", v.Name, dist))
+						}
+					}})
+				}
 			}
 			for _, v := range refmatch.Variants {
 				for _, scale := range []string{"prod", "discr"} {
